@@ -69,6 +69,21 @@ EXTRA = [
     ('join_aliases_upper', 'SELECT A.id, B.c FROM int1.t1 AS A JOIN int1.t3 AS B ON A.id = B.id'),
 ]
 
+# column names that need quoting (a dot, a blank, a keyword, capitals, a leading digit, non-ASCII letters, a quote inside) in
+# every position where the planner touches column identifiers (bare / qualified target, expression, WHERE, GROUP / ORDER BY)
+ODD_NAMES = ['`a.b`', '`a b`', '`select`', '`Ab`', '`1a`', '`größe`', '`a.b.c`', '`int1.a`', '`t1.a`', '`a``b`' if False else '`a-b`', '`*`']
+for _i, _n in enumerate(ODD_NAMES):
+    EXTRA += [
+        (f'odd_column_{_i}_bare', f'SELECT {_n} FROM int1.t1'),
+        (f'odd_column_{_i}_two', f'SELECT {_n}, id FROM int1.t1 WHERE {_n} = 1'),
+        (f'odd_column_{_i}_qualified', f'SELECT t1.{_n} FROM int1.t1'),
+        (f'odd_column_{_i}_full', f'SELECT int1.t1.{_n} FROM int1.t1 ORDER BY int1.t1.{_n}'),
+        (f'odd_column_{_i}_expr', f'SELECT {_n} + 1, max({_n}) FROM int1.t1 GROUP BY {_n}'),
+        (f'odd_column_{_i}_aliased', f'SELECT {_n} AS {_n} FROM int1.t1 AS {_n}' if False else f'SELECT id AS {_n} FROM int1.t1'),
+        (f'odd_column_{_i}_nested', f'SELECT {_n} FROM (SELECT {_n} FROM int1.t1) AS s'),
+        (f'odd_column_{_i}_join', f'SELECT t1.{_n}, t3.{_n} FROM int1.t1 JOIN int1.t3 ON t1.{_n} = t3.{_n}'),
+    ]
+
 # tables written without the integration qualifier: only meaningful when the integration is the default namespace
 EXTRA_DEFAULT_NS = [
     ('unqualified', 'SELECT id FROM t1 WHERE a = 1'),
@@ -100,6 +115,25 @@ NEG_CATALOG = dict(integrations=[{'name': 'int1', 'type': 'data'}, {'name': 'int
                    predictor_metadata=[dict(name='pred', integration_name='mindsdb')], default_namespace='mindsdb')
 
 
+# integration names that contain / resemble the names the planner treats specially (files, views, the project, the system
+# schemas), or are spelt with capitals in the catalog: a single-integration query must be pushed down under every name
+INT_NAMES = ['pageviews', 'datafiles', 'files2', 'my_views', 'mindsdb_db', 'information_schema2', 'Int1', 'INT1', 'log', 'tables']
+
+
+def rename(obj, name):
+    """int1 -> name in a text / catalog (spellings INT1 / Int1 of the text follow as upper case / capitalised)"""
+    if isinstance(obj, str):
+        def sub(mo):
+            w = mo.group(0)
+            return name.upper() if w == 'INT1' else name.capitalize() if w == 'Int1' else name
+        return re.sub(r'\b(int1|INT1|Int1)\b', sub, obj)
+    if isinstance(obj, dict):
+        return {k: rename(v, name) for k, v in obj.items()}
+    if isinstance(obj, list):
+        return [rename(v, name) for v in obj]
+    return obj
+
+
 def qualify(sql, default=False):
     if default:
         return sql
@@ -107,11 +141,11 @@ def qualify(sql, default=False):
     return re.sub(r'(FROM int1\.t[123](?: AS \w+)?)\s*,\s+(t[123])\b', r'\1, int1.\2', sql)
 
 
-def strip_qualifier(tree):
+def strip_qualifier(tree, iname='int1'):
     """the expected fetch tree: the original with the integration qualifier removed everywhere"""
     t = copy.deepcopy(tree)
     for idn, path in reflect.walk(t, want=lambda o: isinstance(o, A.Identifier)):
-        if len(idn.parts) > 1 and isinstance(idn.parts[0], str) and idn.parts[0].lower() == 'int1':
+        if len(idn.parts) > 1 and isinstance(idn.parts[0], str) and idn.parts[0].lower() == iname.lower():
             idn.parts = idn.parts[1:]
     return t
 
@@ -180,14 +214,39 @@ class CHECK(Check):
             out.append(('extra', label, 'default_int1'))
         for label, sql in NEGATIVE:
             out.append(('negative', label, None))
+        # the integration under other names: all extra shapes and the model with <= 1 non-default feature (thorough 2)
+        for name in INT_NAMES:
+            for label, sql in EXTRA:
+                out.append(('extra', label, 'names@' + name))
+            for a in qgen.assignments(c06.FEATURES, 2 if self.tier == 'thorough' else 1):
+                if c06.build(a) is not None:
+                    out.append(('model', tuple(a[n] for n in c06.FEATURES), 'names@' + name))
         return out
 
-    def ensure(self):
+    def ensure(self, iname='int1'):
         if self.cons is None:
             self.cons = [sqlref.make_db(db, attach=ATTACH) for db in self.dbs]
+            self.cons_named = {}
+        if iname != 'int1' and iname not in self.cons_named:
+            self.cons_named[iname] = [sqlref.make_db(db, attach={iname: ATTACH['int1']}) for db in self.dbs]
+
+    def db_iter_named(self, iname):
+        if iname == 'int1':
+            yield from self.db_iter()
+            return
+        idx = self.active if self.active is not None else range(len(self.dbs))
+        for i in idx:
+            yield self.cons_named[iname][i], self.dbs[i]
 
     def evaluate(self, sql, full, spec, lim, off, cat, res=None):
         """-> list of (kind, detail, message)"""
+        iname = 'int1'
+        catalog = None
+        if '@' in cat:
+            cat0, iname = cat.split('@')
+            sql, full, catalog = rename(sql, iname), rename(full, iname), rename(copy.deepcopy(CATALOGS[cat0]), iname)
+        else:
+            catalog = copy.deepcopy(CATALOGS[cat])
         out = parsing.outcome(sql, 'mindsdb')
         if out.kind != 'ok':
             if res:
@@ -195,7 +254,7 @@ class CHECK(Check):
             return []
         orig = parsing.outcome(sql, 'mindsdb').value
         try:
-            plan = plan_query(out.value, **copy.deepcopy(CATALOGS[cat]))
+            plan = plan_query(out.value, **catalog)
         except (PlanningException, NotImplementedError) as e:
             return [('not-planned', '', f'{sql!r} [{cat}]: {type(e).__name__}: {str(e)[:120]}')]
         except Exception as e:
@@ -203,21 +262,21 @@ class CHECK(Check):
                 res.count('internal_error_(C09)')
             return []
         steps = plan.steps
-        if not (len(steps) == 1 and isinstance(steps[0], S.FetchDataframeStep) and str(steps[0].integration).lower() == 'int1'):
+        if not (len(steps) == 1 and isinstance(steps[0], S.FetchDataframeStep) and str(steps[0].integration).lower() == iname.lower()):
             return [('not-a-single-fetch', '', f'{sql!r} [{cat}]: plan is {steps}')]
         if res:
             res.count('single_fetch_plans')
         fails = []
         fq = steps[0].query
-        exp = reflect.fingerprint(drop_natural_aliases(strip_qualifier(orig)))
+        exp = reflect.fingerprint(drop_natural_aliases(strip_qualifier(orig, iname)))
         got = reflect.fingerprint(drop_natural_aliases(fq))
         if exp != got:
             from vf.props.c18 import fp_diff
             fails.append(('fetch-query-differs-structurally', fp_diff(exp, got),
                           f'{sql!r} [{cat}]: fetch query {str(fq)!r} is not the original minus the qualifier (first difference at {fp_diff(exp, got)})'))
-        self.ensure()
+        self.ensure(iname)
         bad = None
-        for con, db in self.db_iter():
+        for con, db in self.db_iter_named(iname):
             ref_full = sqlref.run(con, full)
             ref = sqlref.run(con, sql)
             if ref[0] != 'rows' or ref_full[0] != 'rows':
@@ -264,13 +323,21 @@ class CHECK(Check):
         if kind == 'extra':
             sql = dict(EXTRA + EXTRA_DEFAULT_NS)[payload]
             res.key((sql, cat))
-            for k, detail, msg in self.evaluate(sql, sql, [], None, None, cat, res):
-                res.violation(f'{k}|{payload}' + (f'|{detail}' if detail else ''), msg)
+            fails = self.evaluate(sql, sql, [], None, None, cat, res)
+            if fails and '@' in cat:
+                # a failure that the plain name int1 shows as well is reported there
+                base = {k for k, _, _ in self.evaluate(sql, sql, [], None, None, cat.split('@')[0])}
+                fails = [f for f in fails if f[0] not in base]
+            for k, detail, msg in fails:
+                res.violation(f'{k}|{payload}' + (f'|{detail}' if detail else '') + ('|integration-name=' + cat.split('@')[1] if '@' in cat else ''), msg)
             return res
         assign = dict(zip(c06.FEATURES, payload))
         q = c06.build(assign)
         res.key((qualify(q['sql']), cat))
         fails = self.evaluate(qualify(q['sql']), qualify(q['full_sql']), q['spec'], q['limit'], q['offset'], cat, res)
+        if fails and '@' in cat:
+            base = {k for k, _, _ in self.evaluate(qualify(q['sql']), qualify(q['full_sql']), q['spec'], q['limit'], q['offset'], cat.split('@')[0])}
+            fails = [f for f in fails if f[0] not in base]
         for k, detail, msg in fails:
             cur = dict(assign)
             for name in c06.FEATURES:
@@ -283,7 +350,7 @@ class CHECK(Check):
                     continue
                 if any(k2 == k for k2, _, _ in self.evaluate(qualify(q2['sql']), qualify(q2['full_sql']), q2['spec'], q2['limit'], q2['offset'], cat)):
                     cur = trial
-            res.violation(f'{k}|{c06.label(cur, True)}' + (f'|{detail}' if detail and c06.label(cur, True) == "default" else ''), msg + f'\n    minimal failing features: {c06.label(cur)}')
+            res.violation(f'{k}|{c06.label(cur, True)}' + (f'|{detail}' if detail and c06.label(cur, True) == "default" else '') + ('|integration-name=' + cat.split('@')[1] if '@' in cat else ''), msg + f'\n    minimal failing features: {c06.label(cur)}')
         return res
 
     def run_negative(self, res, label):
@@ -312,11 +379,13 @@ class CHECK(Check):
     def coverage(self, agg):
         return {'exhaustive': True, 'databases': len(self.dbs), 'databases_used_for_cases_with_3_deviations': len(self.narrow) if self.narrow is not None else len(self.dbs), 'extra_shapes': [e[0] for e in EXTRA], 'negative_shapes': [n[0] for n in NEGATIVE],
                 'rule': 'C06 SELECT feature model restricted to integration int1 (<= d non-default features + full products) x catalogs, 22 alias/qualifier/star '
-                        'shapes x 3 catalogs, 14 negative shapes; every fetch executed on every database; distinct_nontrivial = distinct (SQL, catalog)'}
+                        'shapes x 3 catalogs, column names that need quoting x 8 positions, the integration under 10 other names (names containing files / views / mindsdb / information_schema, capitals), 14 negative shapes; every fetch executed on every database; distinct_nontrivial = distinct (SQL, catalog)'}
 
     def describe_case(self, case):
         kind, payload, cat = case
         if kind == 'model':
             q = c06.build(dict(zip(c06.FEATURES, payload)))
-            return {'kind': kind, 'sql': qualify(q['sql']), 'catalog': cat}
-        return {'kind': kind, 'sql': dict(EXTRA + NEGATIVE)[payload], 'catalog': cat}
+            sql = qualify(q['sql'])
+            return {'kind': kind, 'sql': rename(sql, cat.split('@')[1]) if cat and '@' in cat else sql, 'catalog': cat}
+        sql = dict(EXTRA + EXTRA_DEFAULT_NS + NEGATIVE)[payload]
+        return {'kind': kind, 'sql': rename(sql, cat.split('@')[1]) if cat and '@' in cat else sql, 'catalog': cat}
